@@ -20,8 +20,8 @@ def result_of(case: dict) -> dict:
 
 def run(ctx):
     logging.disable(logging.CRITICAL)       # the runner logs every (expected) task failure with a traceback
-    consts = {"MaxN": "3", "MaxIn": "2", "GenOuts": "{2, 3, 10, 11, 12}"} if ctx.quick else \
-             {"MaxN": "4", "MaxIn": "2", "GenOuts": "{2, 3, 4, 9, 10, 11, 12, 20, 101}"}
+    consts = {"MaxN": "3", "MaxIn": "2", "FullStaticsN": "2", "GenOuts": "{2, 3, 10, 11, 12}"} if ctx.quick else \
+             {"MaxN": "4", "MaxIn": "2", "FullStaticsN": "3", "GenOuts": "{2, 3, 4, 9, 10, 11, 12, 20, 101}"}
     cases_file, cases = p3.generate(ctx, "Lowering", consts)
     ctx.log(f"{len(cases)} cases")
     results = [result_of(c) for c in cases]
@@ -34,10 +34,14 @@ def run(ctx):
         "evaluations": len(cases), "distinct_nontrivial": nontrivial, "exhaustive": True,
         "tasks_run": sum(len(c["nodes"]) for c in cases),
         "generator_cases": sum(1 for c in cases if any(n["nout"] > 2 for n in c["nodes"])),
+        "cases_with_static_none_or_falsy": sum(1 for c in cases if any(a["t"] in ("none", "bool") or (a["t"] == "int" and a["i"] == 0)
+                                                   or (a["t"] == "str" and a["s"] == "") for n in c["nodes"]
+                                                   for a in list(n["args"]) + [kv[1] for kv in n["kwargs"]])),
         "count_mismatch_cases": sum(1 for c in cases if any(n["nout"] != n["yields"] for n in c["nodes"])),
         "rule": "spec/Lowering.tla!Generate: (1) every DAG with <= MaxN nodes (<= MaxIn inputs per node, any pair of upstream "
-                "outputs, first/last node with 1 or 2 outputs) x 5 ways of mentioning / not mentioning the inputs among static "
-                "positional and keyword arguments; (2) a generator with N in GenOuts outputs yielding N-1, N, N+1 values, fed "
+                "outputs, first/last node with 1 or 2 outputs) x 6 ways of mentioning / not mentioning the inputs among static "
+                "positional and keyword arguments (static first, between, after an input name, last, last twice) x static value "
+                "in {7, 0, '', 's', None, False} (graphs <= FullStaticsN nodes; {7, None} up to 3 nodes, None above); (2) a generator with N in GenOuts outputs yielding N-1, N, N+1 values, fed "
                 f"or not by a source, with no consumer / a consumer of one / of two of its outputs; constants {consts}; "
                 "non-trivial = the graph has an edge; graphs are built with fluent.Node/Payload/Action, lowered by graph2job, "
                 "every task run by execute_sequence/run/Memory over a dict-backed shm; TLC evaluates Lowering!Post",
@@ -57,6 +61,7 @@ def run(ctx):
         ctx.violate("post:" + "+".join(sorted(names)) + ":" + cls, f"lowering/running violates {sorted(names)} on case {json.dumps(c)[:500]}",
                     {"case": c, "result": results[i - 1]}, clause="+".join(sorted(names)))
     ctx.assumptions += ["bounded domain as stated in `rule`; inputs are referenced positionally (an input name occurs at most once "
-                        "in args; keyword arguments are static, as in the fluent API); callables are pure recording functions",
+                        "in args; keyword arguments are static, as in the fluent API); callables are pure recording functions whose "
+                        "parameters all default to a value outside the domain, so a dropped/defaulted argument is observable",
                         "shm is a dict-backed stand-in (serde and Memory are the real ones); tasks run one at a time in a "
                         "topological order"]
